@@ -17,10 +17,13 @@ description (and every toggled sibling) is a valid statement by construction.
 """
 from __future__ import annotations
 
+import collections
 import copy as _copy
 
 from hypothesis import strategies as st
 from sqlalchemy import (
+    ARRAY,
+    JSON,
     BigInteger,
     Boolean,
     Column,
@@ -35,7 +38,9 @@ from sqlalchemy import (
     Table,
     Text,
     TypeDecorator,
+    all_,
     and_,
+    any_,
     bindparam,
     case,
     cast,
@@ -399,9 +404,65 @@ ARITH = {"+": lambda a, b: a + b, "-": lambda a, b: a - b, "*": lambda a, b: a *
 _sq_counter = [0]
 
 
+# how often each compile-time-rewritten operator family was built (read by C03 for its class labels)
+STATS = collections.Counter()
+LK_KINDS = ["like", "ilike", "starts", "ends", "contains", "istarts", "iends", "icontains"]
+
+
+def _lk(n, env):
+    """["lk", operand, kind, literal, neg, esc, full]: the LIKE family the compiler rewrites at compile time
+    (startswith / endswith / contains and their case-insensitive forms, [i]like with ESCAPE, negations)"""
+    e = _col(bx(n[1], env))
+    kind, val, neg, esc = n[2], n[3][1], n[4], n[5]
+    pat = val if (len(n) > 6 and n[6]) else val[:1]
+    kw = {}
+    if esc == "esc":
+        kw["escape"] = "/"
+    if kind in ("like", "ilike"):
+        pat = pat + ("/%%" if esc == "esc" else "") + "%"
+        r = getattr(e, kind)(pat, **kw)
+    else:
+        if esc == "auto":
+            kw["autoescape"] = True
+            pat = pat + "%_"
+        meth = {"starts": "startswith", "ends": "endswith", "contains": "contains", "istarts": "istartswith", "iends": "iendswith", "icontains": "icontains"}[kind]
+        r = getattr(e, meth)(pat, **kw)
+    STATS["lk:" + ("not_" if neg else "") + kind] += 1
+    return ~r if neg else r
+
+
 def bx(n, env):
     """concrete expression node -> SQLAlchemy column expression"""
     h = n[0]
+    if h == "lk":
+        return _lk(n, env)
+    if h == "rx":  # regexp_match (sqlite: REGEXP through the driver's registered function)
+        STATS["regexp_match"] += 1
+        r = _col(bx(n[1], env)).regexp_match(n[2][1][:1] + ".*")
+        return ~r if n[3] else r
+    if h == "idf":
+        STATS["is_distinct_from"] += 1
+        a, b = _col(bx(n[1], env)), bx(n[2], env)
+        return a.is_not_distinct_from(b) if n[3] else a.is_distinct_from(b)
+    # ---- compile-only operators (C03): not executable on SQLite
+    if h == "rxr":
+        STATS["regexp_replace"] += 1
+        return _col(bx(n[1], env)).regexp_replace(n[2][1][:1] + ".", n[3][1])
+    if h == "match":
+        STATS["match"] += 1
+        r = _col(bx(n[1], env)).match(n[2][1])
+        return ~r if n[3] else r
+    if h == "anyall":
+        STATS["any_all"] += 1
+        arr = literal(list(n[3][1]) if n[3][0] == "inv" else [1, 2], type_=ARRAY(Integer))
+        return _col(bx(n[2], env)) == (any_(arr) if n[1] else all_(arr))
+    if h == "jget":
+        STATS["json_getitem"] += 1
+        j = cast(_col(bx(n[1], env)), JSON)[["k", "a b", 0][n[2] % 3]]
+        return j.as_integer() if n[3] else j.as_string()
+    if h == "aget":
+        STATS["array_getitem"] += 1
+        return literal([n[1][1], n[2][1]], type_=ARRAY(Integer))[1 + n[3] % 2]
     if h == "ci":
         return env.icol(n[1], n[2])
     if h == "cs":
@@ -570,7 +631,10 @@ def bool_expr(depth):
         st.tuples(st.just("isn"), st.one_of(_icol, _scol), st.booleans()).map(list),
         st.tuples(st.just("btw"), _icol, _ilit, _ilit).map(list),
         st.tuples(st.just("cmp"), _ineq, typed_expr(num_only=True), _ilit).map(list),
-        st.tuples(st.just("like"), _scol, st.sampled_from(["like", "starts", "contains", "ilike"]), _slit).map(list),
+        _lk_leaf(),
+        _lk_leaf(),
+        st.tuples(st.just("rx"), _scol, _slit, st.booleans()).map(list),
+        st.tuples(st.just("idf"), st.one_of(_icol, _icol, _scol), st.one_of(_icol, _ilit), st.booleans()).map(list),
     )
     if depth <= 0:
         return leaf
@@ -584,6 +648,35 @@ def bool_expr(depth):
         st.tuples(st.just("not"), sub).map(list),
         st.tuples(st.just("ex"), st.integers(0, 2), st.integers(0, 2), _cmpop, st.one_of(_icol, _ilit), st.booleans()).map(list),
     )
+
+
+def _lk_leaf():
+    return st.tuples(
+        st.just("lk"), _scol, st.sampled_from(LK_KINDS), _slit, st.sampled_from([False, False, True]),
+        st.sampled_from([None, None, "esc", "auto"]), st.booleans(),
+    ).map(list)
+
+
+def bool_expr_c(depth):
+    """bool_expr plus operators that only compile (not executable on SQLite): match, any_/all_, regexp_replace, JSON getitem"""
+    extra = st.one_of(
+        st.tuples(st.just("match"), _scol, _slit, st.booleans()).map(list),
+        st.tuples(st.just("anyall"), st.integers(0, 1), _icol, st.tuples(st.just("inl"), st.integers(1, 3), _base).map(list)).map(list),
+        st.tuples(st.just("cmp"), _cmpop, st.tuples(st.just("rxr"), _scol, _slit, _slit).map(list), _slit).map(list),
+        st.tuples(st.just("cmp"), _cmpop, st.tuples(st.just("jget"), _scol, st.integers(0, 2), st.just(1)).map(list), _ilit).map(list),
+        st.tuples(st.just("cmp"), _cmpop, st.tuples(st.just("aget"), _ilit, _ilit, st.integers(0, 1)).map(list), _icol).map(list),
+    )
+    return st.one_of(bool_expr(depth), bool_expr(depth), bool_expr(depth), extra)
+
+
+def any_expr_c(depth):
+    extra = st.one_of(
+        st.tuples(st.just("rxr"), _scol, _slit, _slit).map(list),
+        st.tuples(st.just("jget"), _scol, st.integers(0, 2), st.integers(0, 1)).map(list),
+        st.tuples(st.just("aget"), _ilit, _ilit, st.integers(0, 1)).map(list),
+        bool_expr(0),
+    )
+    return st.one_of(any_expr(depth), any_expr(depth), extra)
 
 
 def any_expr(depth):
@@ -601,7 +694,7 @@ def lit_int_expr():
 
 
 # ------------------------------------------------------------------ statement descriptions
-LABELS = ["l0", "l1", "x", "id"]
+LABELS = ["l0", "l1", "lx", "lid"]  # never equal to a column name: an explicit label colliding with an unlabelled column of that name is a documented error once wrapped
 LOADERS = ["joined", "selectin", "subquery", "lazy", "raise"]
 
 
@@ -662,7 +755,7 @@ def select_desc(draw, depth=1, allow_wrap=True, orm=None):
         }
         d["distinct"] = 0
     else:
-        d["cols"] = draw(st.lists(st.tuples(st.one_of(any_expr(depth), typed_expr(), typed_expr(num_only=True)), st.one_of(st.none(), st.integers(0, 3))).map(list), min_size=1, max_size=4))
+        d["cols"] = draw(st.lists(st.tuples(st.one_of(any_expr(depth), any_expr(depth), typed_expr(), typed_expr(num_only=True), _lk_leaf()), st.one_of(st.none(), st.integers(0, 3))).map(list), min_size=1, max_size=4))
     if allow_wrap and not (orm and shape == "ent"):
         w = draw(st.sampled_from([None, None, "subq", "cte", "setop"]))
         if w in ("subq", "cte"):
@@ -728,9 +821,9 @@ def stmt_desc(depth=1):
 SEL_TOGGLES = [
     "distinct", "outer0", "full0", "label0", "limit", "offset", "for_update", "prefix", "col_order", "label_style",
     "lit_type", "cast_type", "literal_execute", "where_drop", "order_desc", "op_flip", "in_neg", "wrap_name", "setop_op",
-    "join_drop", "loader", "opt_drop", "total", "wlc_flag", "having_op", "agg_fn", "where_dup", "xopt", "nocache_type", "delta_type", "xjoin", "wlc_op", "type_arg", "type_mode",
+    "join_drop", "loader", "opt_drop", "total", "wlc_flag", "having_op", "agg_fn", "where_dup", "xopt", "nocache_type", "delta_type", "xjoin", "wlc_op", "type_arg", "type_mode", "lk_kind", "lk_neg", "lk_esc",
 ]
-DML_TOGGLES = ["ret", "ret_more", "pcols_more", "many", "val_drop", "where_drop", "op_flip", "lit_type", "in_neg", "sync", "sval", "literal_execute", "nocache_type", "delta_type", "type_arg", "type_mode"]
+DML_TOGGLES = ["ret", "ret_more", "pcols_more", "many", "val_drop", "where_drop", "op_flip", "lit_type", "in_neg", "sync", "sval", "literal_execute", "nocache_type", "delta_type", "type_arg", "type_mode", "lk_kind", "lk_neg", "lk_esc"]
 
 
 def toggles_for(desc):
@@ -815,6 +908,17 @@ def _toggle(d, name):
                 return True
             if n[0] == "ls":
                 n[:] = ["lt", n[1], "t"]
+                return True
+        _walk(d, f)
+    elif name in ("lk_kind", "lk_neg", "lk_esc"):
+        def f(n):
+            if n[0] == "lk":
+                if name == "lk_kind":
+                    n[2] = LK_KINDS[(LK_KINDS.index(n[2]) + 3) % len(LK_KINDS)]
+                elif name == "lk_neg":
+                    n[4] = not n[4]
+                else:
+                    n[5] = {None: "esc", "esc": "auto", "auto": None}[n[5]]
                 return True
         _walk(d, f)
     elif name in ("type_arg", "type_mode"):
@@ -1027,9 +1131,12 @@ def _core_select(d, order, params):
             cols = [TABLES[scope[0]]]
     else:
         cols = []
-        used = set()
+        built_cols = [bx(e, env) for e, _ in d["cols"]]
+        # an explicit label must not collide with another explicit label nor with the name of an unlabelled column
+        # (documented InvalidRequestError "Please use unique names for explicit labels" once the SELECT is wrapped)
+        used = {getattr(c, "name", None) for c, (_, lab) in zip(built_cols, d["cols"]) if lab is None}
         for pos, (e, lab) in enumerate(d["cols"]):
-            c = bx(e, env)
+            c = built_cols[pos]
             if lab is not None:
                 name = LABELS[lab % len(LABELS)]
                 if name in used:
